@@ -301,7 +301,8 @@ _ADD2 = {
                 'orthogonality proved for the generated residual against the generated system (Props/SLRestResidual.lean)'),
     'C04': dict(technique='; evaluate_exact, potential, the vector routines and all of bilform_matrix regenerated from source and proved equal to '
                 'the models (Props/SLRestTie.lean)'),
-    'C07': dict(technique='; evaluate_exact, potential, evaluate_vector regenerated from source and proved equal to the model (Props/SLRestTie.lean)'),
+    'C07': dict(technique='; evaluate_exact, potential, evaluate_vector regenerated from source and proved equal to the model (Props/SLRestTie.lean); '
+                'time additivity of the closed-form evaluation proved for model and regenerated code (Props/C07TimeAdditive.lean)'),
     'C17': dict(technique='; all of bilform_matrix (defaults, threshold, key text, load/save, serial/pool) regenerated from source and proved equal '
                 'to the assembly model (Props/SLRestTie.lean gen_bilform_matrix_*), generated twins incl. cache histories'),
     'C16': dict(technique='; src/initial_mesh.py regenerated from source (translate/quadtreegen.py) and proved to simulate the hand model '
